@@ -24,6 +24,12 @@ import RisorModel.C03.Model
   live | done; body returns | raises | panics) → `ok` then the outcome classes of the entries
   (`value` | `error` | `raised` | `killed`, comma-separated) then `running=<bool>`: `lifeSeq`
   from `Life.init`
+* `get <scan|memoKept|memoCleared> <op,op,…>` (op `load:<name.name.…>` = the VM is pointed at a
+  code object with these globals in slot order, `load:` for none; `get:<name>`) → `ok` then one
+  outcome per `get` (`found:<slot>` | `notfound` | `nocode` | `escaped`, comma-separated; `-` for
+  none): `getSeq` from `GetVm.init`
+* `file <impl|recording> <ev,ev,…>` (ev close | cancel | resume) → `ok` then one outcome per event
+  (`ok` | `callerPanic` | `killed`, comma-separated): `fileSeq` from `FileObj.init`
 * `constexpr <prefix tokens>` (`n<decimal>`, `neg`, `add sub mul div mod xor shl shr band bor`) →
   `value <n>` | `error <why>` | `killed <why>`: `declRun implConst`
 * `inspect <heap> <value>` → `ok <hex of the rendering>` | `nofuel`
@@ -208,7 +214,40 @@ def parseIExpr : Nat → List String → Option (IExpr × List String)
           | none => none
           | some (r, r2) => some (.bin o l r, r2)
 
+def parseGetOp (s : String) : Option GetOp :=
+  match s.splitOn ":" with
+  | ["load", ns] => some (.load (if ns = "" then [] else ns.splitOn "."))
+  | ["get", n] => some (.get n)
+  | _ => none
+
+def showGetRes : GetRes → String
+  | .found i => "found:" ++ toString i
+  | .notFound => "notfound"
+  | .noCode => "nocode"
+  | .escaped _ => "escaped"
+
+def parseFEv : String → Option FEv
+  | "close" => some .close | "cancel" => some .cancel | "resume" => some .resume | _ => none
+
+def showFRes : FRes → String
+  | .ok => "ok" | .callerPanic _ => "callerPanic" | .killed _ => "killed"
+
 def handle : List String → String
+  | ["file", mode, evs] =>
+    let m : Option Bool := match mode with
+      | "impl" => some false | "recording" => some true | _ => none
+    match m, (evs.splitOn ",").mapM parseFEv with
+    | some m, some l => "ok\t" ++ ",".intercalate ((fileSeq m FileObj.init l).map showFRes)
+    | _, _ => "error?\tbad-file"
+  | ["get", mode, ops] =>
+    let m : Option GetMode := match mode with
+      | "scan" => some .scan | "memoKept" => some .memoKept
+      | "memoCleared" => some .memoCleared | _ => none
+    match m, (ops.splitOn ",").mapM parseGetOp with
+    | some m, some l =>
+      let rs := getSeq m GetVm.init l
+      "ok\t" ++ (if rs.isEmpty then "-" else ",".intercalate (rs.map showGetRes))
+    | _, _ => "error?\tbad-get"
   | ["life", watch, steps] =>
     let w : Option Watch := match watch with
       | "untracked" => some .untracked | "closeKept" => some .closeKept
